@@ -10,6 +10,9 @@ CONSTANTS
   DoEmit = FALSE
   Bug = "none"
   Hist = 0
+  DsHist = 0
+  DsOps = {}
+  NMon = 0
   Shape = "sorted"
 SYMMETRY Sym
 INVARIANT TypeOK
